@@ -6,6 +6,7 @@ import OtelVerif.Lemmas.C02Live
 import OtelVerif.Lemmas.C02P
 import OtelVerif.Lemmas.C02Cond
 import OtelVerif.Lemmas.C02Cons
+import OtelVerif.Lemmas.C02Audit
 /-!
 # C02 — sending queue: exactly-once hand-off, FIFO, bounded size, no lost wake-ups
 
@@ -118,9 +119,10 @@ other two refusals are exactly the size guards -/
 theorem C02_refusal_exact (hk : 0 ≤ k.cap) (hr : Reachable k s) (p : Nat) (el : Int) (s' : St)
     (hf : fire k s (.offer p el) = some s') :
     ((s'.ps p).ph = .done .full ↔ (k.block = false ∧ 0 < el ∧ el ≤ k.cap ∧ s.size + el > k.cap)) ∧
-    (p ∈ s'.accepted ↔ (0 < el ∧ el ≤ k.cap ∧ s.size + el ≤ k.cap)) ∧
+    (p ∈ s'.accepted ↔ (0 < el ∧ el ≤ k.cap ∧ s.size + el ≤ k.cap ∧ s.stopped = false)) ∧
     ((s'.ps p).ph = .sel ↔ (k.block = true ∧ 0 < el ∧ el ≤ k.cap ∧ s.size + el > k.cap)) ∧
-    ((s'.ps p).ph = .done .invalid ↔ el < 0) ∧ ((s'.ps p).ph = .done .tooLarge ↔ (0 < el ∧ el > k.cap)) := by
+    ((s'.ps p).ph = .done .invalid ↔ el < 0) ∧ ((s'.ps p).ph = .done .tooLarge ↔ (0 < el ∧ el > k.cap)) ∧
+    ((s'.ps p).ph = .done .stopped ↔ (0 < el ∧ el ≤ k.cap ∧ s.size + el ≤ k.cap ∧ s.stopped = true)) := by
   have hH := (Inv.reachable hk hr).H
   simp only [fire] at hf
   split at hf
@@ -133,12 +135,12 @@ theorem C02_refusal_exact (hk : 0 ≤ k.cap) (hr : Reachable k s) (p : Nat) (el 
       split at hf
       · rename_i h1; cases hf
         simp only [refuse, upd_same]
-        refine ⟨by simp; omega, by simp [hna]; omega, by simp; intros; omega, by simp; omega, by simp; omega⟩
+        refine ⟨?_, ?_, ?_, ?_, ?_, ?_⟩ <;> simp [hna] <;> (intros; omega)
       · rename_i h1
         split at hf
         · rename_i h2; cases hf
           simp only [refuse, upd_same]
-          refine ⟨by simp; omega, by simp [hna]; omega, by simp; intros; omega, by simp; omega, by simp; omega⟩
+          refine ⟨?_, ?_, ?_, ?_, ?_, ?_⟩ <;> simp [hna] <;> (intros; omega)
         · rename_i h2; cases hf
           unfold tryAdd
           split
@@ -146,14 +148,95 @@ theorem C02_refusal_exact (hk : 0 ≤ k.cap) (hr : Reachable k s) (p : Nat) (el 
             split
             · rename_i hb
               simp only [register, upd_same]
-              refine ⟨by simp [hb], by simp [hna]; omega, by simp [hb]; omega, by simp; omega, by simp; omega⟩
+              refine ⟨?_, ?_, ?_, ?_, ?_, ?_⟩ <;> simp [hna, hb] <;> (intros; omega)
             · rename_i hb
               simp only [refuse, upd_same]
-              refine ⟨by simp [hb]; omega, by simp [hna]; omega, by simp [hb], by simp; omega, by simp; omega⟩
+              refine ⟨?_, ?_, ?_, ?_, ?_, ?_⟩ <;> simp [hna, hb] <;> (intros; omega)
           · rename_i h3
-            simp only [accept, upd_same]
-            cases hw : k.wfr <;> simp <;> omega
+            split
+            · rename_i hst
+              simp only [refuse, upd_same]
+              refine ⟨?_, ?_, ?_, ?_, ?_, ?_⟩ <;> simp [hna, hst] <;> (intros; omega)
+            · rename_i hst
+              simp only [accept, upd_same]
+              have hst' : s.stopped = false := by cases h : s.stopped <;> simp_all
+              cases hw : k.wfr <;> simp [hst'] <;> omega
   · cases hf
+
+/-- after `Shutdown` nothing is accepted any more, whatever happens: a late `Offer` and a producer released from the
+overflow wait are both refused (`errQueueIsStopped`), so no request can be accepted behind the consumers' backs -/
+theorem C02_nothing_accepted_after_shutdown (l : Label) (s' : St) (hs : s.stopped = true) (hf : fire k s l = some s') :
+    s'.accepted = s.accepted ∧ s'.items.length ≤ s.items.length ∧ s'.stopped = true := by
+  have hta : ∀ p el, (tryAdd k s p el).accepted = s.accepted ∧ (tryAdd k s p el).items = s.items := by
+    intro p el
+    unfold tryAdd register refuse
+    split
+    · split <;> exact ⟨rfl, rfl⟩
+    · simp [hs]
+  by_cases hl : l = .shutdown
+  · subst hl; simp only [fire] at hf; cases hf; exact ⟨rfl, Nat.le_refl _, rfl⟩
+  refine ⟨?_, ?_, by rw [stopped_step hf hl]; exact hs⟩
+  all_goals
+    cases l with
+    | shutdown => exact absurd rfl hl
+    | offer p el =>
+      simp only [fire] at hf
+      split at hf
+      · split at hf
+        · cases hf; simp [setP]
+        · split at hf
+          · cases hf; simp [refuse]
+          · split at hf
+            · cases hf; simp [refuse]
+            · cases hf; simp [(hta p el).1, (hta p el).2]
+      · cases hf
+    | cancel p => simp only [fire] at hf; cases hf; simp [setP]
+    | wakeTok p => simp only [fire] at hf; split at hf <;> cases hf; simp [setP]
+    | wakeCtx p => simp only [fire] at hf; split at hf <;> cases hf; simp [setP]
+    | relockTok p => simp only [fire] at hf; split at hf <;> cases hf; simp [(hta p _).1, (hta p _).2]
+    | relockCtx p =>
+      simp only [fire] at hf
+      split at hf
+      · cases hf
+        have := ctxCleanup_cons s p
+        have h2 : (ctxCleanup s p).accepted = s.accepted := by
+          unfold ctxCleanup; split
+          · rfl
+          · exact condSignal_accepted s
+        simp [refuse, this.1, h2]
+      · cases hf
+    | getRes p =>
+      simp only [fire] at hf
+      split at hf
+      · split at hf <;> cases hf; simp
+      · cases hf
+    | resCtx p => simp only [fire] at hf; split at hf <;> cases hf; simp [setP]
+    | read c =>
+      simp only [fire] at hf
+      split at hf
+      · cases hf
+      · split at hf
+        · rename_i s1 hp; cases hf
+          obtain ⟨id, el, t, hi, rfl⟩ := pop_some hp
+          simp [hi]
+        · first | (cases hf; simp) | (split at hf <;> cases hf <;> simp)
+    | recheck c =>
+      simp only [fire] at hf
+      split at hf
+      · split at hf
+        · rename_i s1 hp; cases hf
+          obtain ⟨id, el, t, hi, rfl⟩ := pop_some hp
+          simp [hi]
+        · first | (cases hf; simp) | (split at hf <;> cases hf <;> simp)
+      · cases hf
+    | complete id e =>
+      simp only [fire] at hf
+      split at hf
+      · cases hf
+        unfold finish
+        simp only []
+        split <;> simp [(condSignal_fields _).1, condSignal_accepted]
+      · cases hf
 
 /-! ## wait_for_result -/
 
@@ -199,8 +282,8 @@ theorem C02_cond_alone_never_blocks (s : CSt) :
 
 /-- no lost wake-up: when everything has come to rest and the queue is empty, no producer is inside
 `cond.Wait` — for every schedule, including those in which contexts end while signals are in flight -/
-theorem C02_no_lost_wakeup (hk : 0 ≤ k.cap) (hr : Reachable k s) (hq : Quiescent k s) (hz : s.size = 0) :
-    ∀ p, ¬ (s.ps p).ph.inCond := by
+theorem C02_no_lost_wakeup (hk : 0 ≤ k.cap) (hr : Reachable k s) (hs : s.stopped = false) (hq : Quiescent k s)
+    (hz : s.size = 0) : ∀ p, ¬ (s.ps p).ph.inCond := by
   have hI := Inv.reachable hk hr
   -- at rest nobody has an unconsumed signal, nobody is between the select and the lock
   have hnoTok : ∀ q, (s.ps q).ph ≠ .wokenTok := by
@@ -224,16 +307,17 @@ theorem C02_no_lost_wakeup (hk : 0 ≤ k.cap) (hr : Reachable k s) (hq : Quiesce
   intro p hp
   rcases hp with a | a | a
   · have hw : p ∈ s.waiters := (hI.C.wIff p).mpr ⟨Or.inl a, hnoSig p⟩
-    rcases hI.W (List.ne_nil_of_mem hw) with b | ⟨q, b⟩
+    rcases hI.W (List.ne_nil_of_mem hw) with b | ⟨q, b⟩ | b
     · omega
     · rw [hnoSig q] at b; cases b
+    · rw [hs] at b; cases b
   · exact hnoTok p a
   · exact hnoCtx p a
 
 /-- in particular: once every accepted request has finished, a resting queue has no blocked producer -/
-theorem C02_released_when_all_finished (hk : 0 ≤ k.cap) (hr : Reachable k s) (hq : Quiescent k s)
+theorem C02_released_when_all_finished (hk : 0 ≤ k.cap) (hr : Reachable k s) (hs : s.stopped = false) (hq : Quiescent k s)
     (hall : ∀ id ∈ s.accepted, id ∈ s.finished) : ∀ p, ¬ (s.ps p).ph.inCond :=
-  C02_no_lost_wakeup hk hr hq (C02_size_zero_when_all_finished hk hr hall)
+  C02_no_lost_wakeup hk hr hs hq (C02_size_zero_when_all_finished hk hr hall)
 
 /-- why a goroutine that is in the middle of `Offer` may be standing still -/
 def LegitWait (s : St) (p : Nat) : Prop :=
@@ -346,9 +430,9 @@ theorem C02_quiescence_reachable (hk : 0 ≤ k.cap) (hr : Reachable k s) :
 /-- settles the "one Signal per completion" observation: whenever a producer is still inside `cond.Wait` after
 everything has come to rest, some accepted request is still unfinished (`size > 0`), so a further completion —
 and with it a further `Signal` — is still to come.  No schedule leaves a producer blocked with no completion pending. -/
-theorem C02_blocked_implies_pending_completion (hk : 0 ≤ k.cap) (hr : Reachable k s) (hq : Quiescent k s)
+theorem C02_blocked_implies_pending_completion (hk : 0 ≤ k.cap) (hr : Reachable k s) (hs : s.stopped = false) (hq : Quiescent k s)
     (p : Nat) (hp : (s.ps p).ph.inCond) : 0 < s.size ∧ s.items ++ s.inflight ≠ [] := by
-  have hz : s.size ≠ 0 := fun h0 => C02_no_lost_wakeup hk hr hq h0 p hp
+  have hz : s.size ≠ 0 := fun h0 => C02_no_lost_wakeup hk hr hs hq h0 p hp
   obtain ⟨h1, h2, _, _, _⟩ := C02_size hk hr
   refine ⟨by omega, ?_⟩
   intro he
@@ -371,13 +455,30 @@ theorem tracked_run {k : Cfg} (hk : 0 ≤ k.cap) {s s' : St} (ls : List Label) (
       exact ih (reachable_step hr hf) (fun l' hl' => hd l' (List.mem_cons_of_mem _ hl')) h
         (tracked_step (Inv.reachable hk hr).C (hd l (by simp)) hf ht)
 
+theorem drain_ne_shutdown (l : Label) (h : l.drain = true) : l ≠ .shutdown := by
+  intro e; subst e; simp [Label.drain] at h
+
+theorem running_run {k : Cfg} {s s' : St} (ls : List Label) (hd : ∀ l ∈ ls, Label.drain l = true)
+    (h : runSched k s ls = some s') (hs : s.stopped = false) : s'.stopped = false := by
+  induction ls generalizing s with
+  | nil => simp [runSched] at h; exact h ▸ hs
+  | cons l rest ih =>
+    simp only [runSched] at h
+    cases hf : fire k s l with
+    | none => simp [hf] at h
+    | some s1 =>
+      simp only [hf] at h
+      exact ih (fun l' hl' => hd l' (List.mem_cons_of_mem _ hl')) h
+        (by rw [stopped_step hf (drain_ne_shutdown l (hd l (by simp)))]; exact hs)
+
 theorem drain_aux {k : Cfg} (hk : 0 ≤ k.cap) (L : List Nat) (n : Nat) (s : St) (hr : Reachable k s) (hc : Covers L s)
-    (hn : Omega L s ≤ n) :
+    (hs : s.stopped = false) (hn : Omega L s ≤ n) :
     ∃ ls s', (∀ l ∈ ls, Label.drain l = true) ∧ runSched k s ls = some s' ∧ ∀ p, ¬ (s'.ps p).ph.inCond := by
   induction n generalizing s with
   | zero =>
     obtain ⟨ls, s1, h1, h2, h3, h4, h5⟩ := exists_quiesce hk (Phi L s) s hr hc (Nat.le_refl _)
     have hr1 := reachable_run ls hr h2
+    have hs1 := running_run ls (fun l hl => internal_drain l (h1 l hl)) h2 hs
     refine ⟨ls, s1, fun l hl => internal_drain l (h1 l hl), h2, ?_⟩
     have h0 : Omega L s1 = 0 := by omega
     have hi : s1.items = [] := by
@@ -392,16 +493,18 @@ theorem drain_aux {k : Cfg} (hk : 0 ≤ k.cap) (L : List Nat) (n : Nat) (s : St)
       have := (Inv.reachable hk hr1).Z.sizeEq
       rw [hi, hf] at this
       simpa [sumSz] using this
-    exact C02_no_lost_wakeup hk hr1 h3 hz
+    exact C02_no_lost_wakeup hk hr1 hs1 h3 hz
   | succ n ih =>
     obtain ⟨ls, s1, h1, h2, h3, h4, h5⟩ := exists_quiesce hk (Phi L s) s hr hc (Nat.le_refl _)
     have hr1 := reachable_run ls hr h2
     have hd1 : ∀ l ∈ ls, Label.drain l = true := fun l hl => internal_drain l (h1 l hl)
+    have hs1 := running_run ls hd1 h2 hs
     -- one environment step that makes the potential drop, then the induction hypothesis
     have next : ∀ (l : Label) (s2 : St), l.drain = true → fire k s1 l = some s2 → Covers L s2 → Omega L s2 < Omega L s1 →
         ∃ ls s', (∀ l ∈ ls, Label.drain l = true) ∧ runSched k s ls = some s' ∧ ∀ p, ¬ (s'.ps p).ph.inCond := by
       intro l s2 hl hf hc2 hlt
-      obtain ⟨ls2, s', g1, g2, g3⟩ := ih s2 (reachable_step hr1 hf) hc2 (by omega)
+      obtain ⟨ls2, s', g1, g2, g3⟩ := ih s2 (reachable_step hr1 hf) hc2
+        (by rw [stopped_step hf (drain_ne_shutdown l hl)]; exact hs1) (by omega)
       refine ⟨ls ++ l :: ls2, s', ?_, ?_, g3⟩
       · intro l' hl'
         rcases List.mem_append.mp hl' with e | e
@@ -424,7 +527,7 @@ theorem drain_aux {k : Cfg} (hk : 0 ≤ k.cap) (L : List Nat) (n : Nat) (s : St)
           have := (Inv.reachable hk hr1).Z.sizeEq
           rw [hit, hfl] at this
           simpa [sumSz] using this
-        exact ⟨ls, s1, hd1, h2, C02_no_lost_wakeup hk hr1 h3 hz⟩
+        exact ⟨ls, s1, hd1, h2, C02_no_lost_wakeup hk hr1 hs1 h3 hz⟩
       | cons x t =>
         -- at rest with a queued item no consumer is parked; let consumer 0 read
         have hwk : s1.cwoken = [] := by
@@ -446,19 +549,20 @@ theorem drain_aux {k : Cfg} (hk : 0 ≤ k.cap) (L : List Nat) (n : Nat) (s : St)
 
 /-- **the drain theorem** (existence form of "a blocked producer is released once earlier requests finish"): from
 every reachable state there is a finite schedule consisting only of the goroutines' own steps, consumer reads
-and completions — no new Offer, no cancellation, no shutdown — after which **no** producer is inside `cond.Wait`,
+and completions — no new Offer, no cancellation, no shutdown (the queue is running: `stopped = false`; after `Shutdown`
+blocked producers are refused when released, or stay blocked, see the report) — after which **no** producer is inside `cond.Wait`,
 and every producer that was waiting for space with a live context has been **enqueued** (not refused).
 What remains to be assumed for "eventually" in a real run is only fairness: the scheduler eventually runs every
 enabled goroutine step (weak fairness of internal labels, incl. `sync.Mutex` hand-over), and the consumers keep
 reading and completing what they were handed. -/
-theorem C02_drain_releases_all (hk : 0 ≤ k.cap) (hr : Reachable k s) :
+theorem C02_drain_releases_all (hk : 0 ≤ k.cap) (hr : Reachable k s) (hs : s.stopped = false) :
     ∃ ls s', (∀ l ∈ ls, Label.drain l = true) ∧ runSched k s ls = some s' ∧ (∀ p, ¬ (s'.ps p).ph.inCond) ∧
       (∀ p, ((s.ps p).ph = .sel ∨ (s.ps p).ph = .wokenTok) → (s.ps p).canc = false → p ∈ s'.accepted) := by
   obtain ⟨L, hc⟩ := covers_exists hr
-  obtain ⟨ls, s', h1, h2, h3⟩ := drain_aux hk L (Omega L s) s hr hc (Nat.le_refl _)
+  obtain ⟨ls, s', h1, h2, h3⟩ := drain_aux hk L (Omega L s) s hr hc hs (Nat.le_refl _)
   refine ⟨ls, s', h1, h2, h3, ?_⟩
   intro p hp hcn
-  rcases tracked_run hk ls p hr h1 h2 (Or.inl ⟨hp, hcn⟩) with ⟨a, _⟩ | a
+  rcases tracked_run hk ls p hr h1 h2 (Or.inl ⟨hp, hcn, hs⟩) with ⟨a, _⟩ | a
   · rcases a with a | a
     · exact absurd (Or.inl a) (h3 p)
     · exact absurd (Or.inr (Or.inl a)) (h3 p)
@@ -691,7 +795,9 @@ theorem C02_persistent_no_request_waits_beside_parked_consumer (hr : PReachable 
 
 /-! ## the pinned cond.go (before the fix commit) deadlocks -/
 
-/-- two waiters whose contexts ended and that queue for the lock, two `Signal`s in a row: the second
+/-- HISTORICAL (about `Model/C02Pinned.lean`, the cond.go that was in the tree BEFORE the fix commit; not a statement about
+the checked tree and not tied to it any more — the cond harness's corpus cases 0-1 now run against the repaired cond).
+Two waiters whose contexts ended and that queue for the lock, two `Signal`s in a row: the second
 `Signal` blocks on the full channel while holding the lock — no label at all is enabled any more, four
 goroutines are mid-operation.  Same schedule as corpus case 0 of the cond harness. -/
 theorem C02_pinned_cond_deadlock :
@@ -737,45 +843,50 @@ theorem C02_check_size_sound (persistent : Bool) (cap size sum : Int) (none : Bo
   unfold Check.sizeClause at h
   cases persistent <;> cases none <;> simp at h <;> simp <;> omega
 
-theorem C02_check_refusal_sound_memory (block : Bool) (cap sizeBefore el : Int) (st : String)
-    (h : Check.refusalClause false block cap sizeBefore el st = true) :
+theorem C02_check_refusal_sound_memory (block stopped : Bool) (cap sizeBefore el : Int) (st : String)
+    (h : Check.refusalClause false block stopped cap sizeBefore el st = true) :
     (st = "full" ↔ (block = false ∧ 0 < el ∧ el ≤ cap ∧ sizeBefore + el > cap)) ∧
-    (st = "inv" ↔ el < 0) ∧ (st = "big" ↔ (0 < el ∧ el > cap)) := by
+    (st = "inv" ↔ el < 0) ∧ (st = "big" ↔ (0 < el ∧ el > cap)) ∧
+    (st = "stopped" ↔ (stopped = true ∧ 0 < el ∧ el ≤ cap ∧ sizeBefore + el ≤ cap)) := by
   have d1 : ("full" : String) ≠ "inv" := by decide
   have d2 : ("full" : String) ≠ "big" := by decide
   have d3 : ("inv" : String) ≠ "big" := by decide
-  have d4 : ("full" : String) ≠ "" := by decide
-  have d5 : ("inv" : String) ≠ "" := by decide
-  have d6 : ("big" : String) ≠ "" := by decide
+  have d7 : ("full" : String) ≠ "stopped" := by decide
+  have d8 : ("inv" : String) ≠ "stopped" := by decide
+  have d9 : ("big" : String) ≠ "stopped" := by decide
   unfold Check.refusalClause Check.expectedRefusal at h
   simp only [Bool.false_eq_true, if_false] at h
   by_cases h0 : el = 0
   · simp [h0] at h
-    obtain ⟨⟨a, b⟩, c⟩ := h
+    obtain ⟨⟨⟨a, b⟩, c⟩, d⟩ := h
     subst h0
-    refine ⟨by simp [a], by simp [b], by simp [c]⟩
+    refine ⟨by simp [a], by simp [b], by simp [c], by simp [d]⟩
   · by_cases h1 : el < 0
     · simp [h0, h1] at h
       subst h
-      refine ⟨by simp [d1.symm]; intros; omega, by simp [h1], by simp [d3]; intros; omega⟩
+      refine ⟨by simp [d1.symm]; intros; omega, by simp [h1], by simp [d3]; intros; omega, by simp [d8]; intros; omega⟩
     · by_cases h2 : el > cap
       · simp [h0, h1, h2] at h
         subst h
-        refine ⟨by simp [d2.symm]; intros; omega, by simp [d3.symm]; omega, by simp; omega⟩
+        refine ⟨by simp [d2.symm]; intros; omega, by simp [d3.symm]; omega, by simp; omega, by simp [d9]; intros; omega⟩
       · by_cases h3 : sizeBefore + el > cap
         · cases block
           · simp [h0, h1, h2, h3] at h
             subst h
-            refine ⟨by simp; omega, by simp [d1]; omega, by simp [d2]; intros; omega⟩
+            refine ⟨by simp; omega, by simp [d1]; omega, by simp [d2]; intros; omega, by simp [d7]; intros; omega⟩
           · simp [h0, h1, h2, h3] at h
-            obtain ⟨⟨a, b⟩, c⟩ := h
-            refine ⟨by simp [a], by simp [b]; omega, by simp [c]; intros; omega⟩
-        · simp [h0, h1, h2, h3] at h
-          obtain ⟨⟨a, b⟩, c⟩ := h
-          refine ⟨by simp [a]; intros; omega, by simp [b]; omega, by simp [c]; intros; omega⟩
+            obtain ⟨⟨⟨a, b⟩, c⟩, d⟩ := h
+            refine ⟨by simp [a], by simp [b]; omega, by simp [c]; intros; omega, by simp [d]; intros; omega⟩
+        · cases stopped
+          · simp [h0, h1, h2, h3] at h
+            obtain ⟨⟨⟨a, b⟩, c⟩, d⟩ := h
+            refine ⟨by simp [a]; intros; omega, by simp [b]; omega, by simp [c]; intros; omega, by simp [d]⟩
+          · simp [h0, h1, h2, h3] at h
+            subst h
+            refine ⟨by simp [d7.symm]; intros; omega, by simp [d8.symm]; omega, by simp [d9.symm]; intros; omega, by simp; omega⟩
 
-theorem C02_check_refusal_sound_persistent (block : Bool) (cap sizeBefore el : Int) (st : String)
-    (h : Check.refusalClause true block cap sizeBefore el st = true) :
+theorem C02_check_refusal_sound_persistent (block stopped : Bool) (cap sizeBefore el : Int) (st : String)
+    (h : Check.refusalClause true block stopped cap sizeBefore el st = true) :
     (st = "full" ↔ (block = false ∧ sizeBefore + el > cap)) ∧
     (st = "big" ↔ (block = true ∧ sizeBefore + el > cap ∧ el > cap)) ∧ st ≠ "inv" := by
   have d1 : ("full" : String) ≠ "inv" := by decide
@@ -793,10 +904,10 @@ theorem C02_check_refusal_sound_persistent (block : Bool) (cap sizeBefore el : I
         subst h
         exact ⟨by simp [d2.symm], by simp; omega, d3.symm⟩
       · simp [h3, h2] at h
-        obtain ⟨⟨a, b⟩, c⟩ := h
+        obtain ⟨⟨⟨a, b⟩, c⟩, _⟩ := h
         exact ⟨by simp [a], by simp [c]; intros; omega, b⟩
   · simp [h3] at h
-    obtain ⟨⟨a, b⟩, c⟩ := h
+    obtain ⟨⟨⟨a, b⟩, c⟩, _⟩ := h
     exact ⟨by simp [a]; intros; omega, by simp [c]; intros; omega, b⟩
 
 theorem C02_check_blocked_sound (persistent : Bool) (size : Int) (none : Bool) (blocked : Nat)
@@ -903,6 +1014,141 @@ theorem C02_cond_credits_are_queued (ls : List CLabel) (s : CSt) (hl : ∀ l ∈
       simp [cfire, a, hs] at this
     · exact Or.inl a
     · exact Or.inr a
+
+/-! ## audit follow-up: wait_for_result converse; persistent queue from an arbitrary start; the literal release clause -/
+
+/-- wait_for_result, converse of `C02_result_routing`: once a request has finished, its outcome is in the channel until
+its producer takes it — so a producer whose context is alive has `getRes` enabled and returns exactly that outcome;
+it can stay in `Offer` only while its request is unfinished -/
+theorem C02_result_delivered {k : Cfg} {s : St} (hk : 0 ≤ k.cap) (hw : k.wfr = true) (hr : Reachable k s) (p : Nat)
+    (hp : (s.ps p).ph = .waitRes) (hf : p ∈ s.finished) :
+    ∃ e, s.results.lookup p = some e ∧ (p, e) ∈ s.outcomes ∧ (fire k s (.getRes p)).isSome = true := by
+  have hRA : InvRA k s := by
+    have : Inv k s ∧ InvRA k s := by
+      refine reachable_induction k (fun s => Inv k s ∧ InvRA k s) ⟨Inv.reachable hk ⟨[], rfl⟩, ?_⟩ ?_ s hr
+      · intro _ q hq; simp at hq
+      · intro s l s' ⟨hI, hA⟩ hf
+        exact ⟨⟨hI.H.step hf, hI.C.step hf, hI.Z.step hI.H hI.C hf, hI.W.step hI.C hI.Z hf⟩, hA.step hI hf⟩
+    exact this.2
+  have hs := hRA hw p hp hf
+  cases hl : s.results.lookup p with
+  | none => rw [hl] at hs; cases hs
+  | some e =>
+    refine ⟨e, rfl, (InvR.reachable hr).resOut _ (lookup_mem _ _ _ hl), ?_⟩
+    simp [fire, hp, hl]
+
+/-- **persistent queue started on arbitrary storage** (restart with stored items, stale `si` snapshot, lowered capacity):
+the reported size is never negative; it never exceeds `max(capacity, restored size)` — so it is within the capacity from
+the first moment it is (the queue only ever grows up to the capacity); whenever nothing is queued it is at most the summed
+size of what is in flight, hence 0 once everything has finished; FIFO / exactly-once hold as from an empty start.
+What does NOT survive a stale or oversized start: `size ≤ capacity` and `size ≤ Σ unfinished` before the queue has been
+read empty once. -/
+theorem C02_persistent_size_any_start {k : Cfg} (hk : 0 ≤ k.cap) {s0 s : St} (h0 : PStart s0) (hr : PReachableFrom k s0 s) :
+    0 ≤ s.size ∧ (s.size ≤ k.cap ∨ s.size ≤ s0.size) ∧ (s.items = [] → s.size ≤ sumSz s.inflight) ∧
+    (s.items = [] → s.inflight = [] → s.size = 0) ∧ s.handed ++ s.items.map Prod.fst = s.accepted ∧ s.handed.Nodup := by
+  obtain ⟨hH, hS⟩ := from_start hk h0 hr
+  refine ⟨hS.nonneg, hS.bound, hS.emptied, ?_, hH.fifo, hH.handed_nodup⟩
+  intro hi hf
+  have := hS.emptied hi
+  rw [hf] at this
+  have := hS.nonneg
+  simp [sumSz] at *
+  omega
+
+/-- the refusal rule needs no history at all: in ANY state (whatever size was restored) an `Offer` is answered "full" ⇔
+not blocking ∧ size+el > cap, "too large" ⇔ blocking ∧ size+el > cap ∧ el > cap, waits ⇔ blocking ∧ size+el > cap ∧ el ≤ cap -/
+theorem C02_persistent_refusal_exact_any_state (k : Cfg) (s s' : St) (p : Nat) (el : Int)
+    (hf : pfire k s (.offer p el) = some s') :
+    ((s'.ps p).ph = .done .full ↔ (k.block = false ∧ s.size + el > k.cap)) ∧
+    ((s'.ps p).ph = .done .tooLarge ↔ (k.block = true ∧ s.size + el > k.cap ∧ el > k.cap)) ∧
+    ((s'.ps p).ph = .sel ↔ (k.block = true ∧ s.size + el > k.cap ∧ el ≤ k.cap)) ∧
+    ((s'.ps p).ph = .done .ok ↔ s.size + el ≤ k.cap) := by
+  simp only [pfire] at hf
+  split at hf
+  · cases hf
+    have hbf : ∀ b : Bool, ¬ b = true → b = false := by intro b hb; cases b <;> simp_all
+    unfold ptryAdd
+    split
+    · rename_i h3
+      split
+      · rename_i hb
+        split
+        · rename_i hbig
+          simp only [refuse, upd_same]
+          refine ⟨?_, ?_, ?_, ?_⟩ <;> simp <;> (intros; first | omega | simp_all)
+        · rename_i hbig
+          simp only [register, upd_same]
+          refine ⟨?_, ?_, ?_, ?_⟩ <;> simp <;> (intros; first | omega | simp_all)
+      · rename_i hb
+        simp only [refuse, upd_same]
+        have := hbf _ hb
+        refine ⟨?_, ?_, ?_, ?_⟩ <;> simp <;> (intros; first | omega | simp_all)
+    · rename_i h3
+      simp only [paccept, upd_same]
+      refine ⟨?_, ?_, ?_, ?_⟩ <;> simp <;> (intros; first | omega | simp_all)
+  · cases hf
+
+/-- non-vacuity: two stored requests (sizes 3 and 4), restored size 50 (stale), capacity 5 -/
+def sRestart : St :=
+  { items := [(100, 3), (101, 4)], size := 50, accepted := [100, 101],
+    ps := fun p => if p = 100 ∨ p = 101 then { ph := .done .ok } else {} }
+
+example : PStart sRestart := by
+  refine ⟨⟨rfl, ?_, by simp [sRestart], by decide, by simp [sRestart]⟩, ?_, rfl, rfl, rfl, rfl, ?_, by decide, by simp [sRestart]⟩
+  · intro p hp
+    simp only [sRestart, List.mem_cons, List.mem_singleton, List.not_mem_nil, or_false] at hp
+    right; exact ⟨.ok, by simp [sRestart, hp]⟩
+  · intro p
+    simp only [sRestart]
+    split <;> simp [Ph.inCond]
+  · intro x hx
+    simp only [sRestart, List.mem_cons, List.mem_singleton, List.not_mem_nil, or_false] at hx
+    rcases hx with rfl | rfl <;> decide
+
+example : (prunSched { cap := 5, block := false, wfr := false } sRestart [.offer 1 1, .read 0, .read 0, .offer 2 2]).map
+    (fun s => (s.size, (s.ps 1).ph, (s.ps 2).ph)) = some (2, .done .full, .done .ok) := by rfl
+
+def k10 : Cfg := { cap := 10, block := true, wfr := false }
+def hol : List Label := [.offer 0 9, .offer 1 5, .offer 2 2, .read 7, .complete 0 0, .wakeTok 1, .relockTok 1]
+
+/-- the literal reading of the release clause: at rest, whoever is still blocked does not fit -/
+def C02_release_on_space_full : Prop :=
+  ∀ (k : Cfg) (s : St), 0 ≤ k.cap → Reachable k s → Quiescent k s →
+    ∀ p, (s.ps p).ph.inCond → s.size + (s.ps p).el > k.cap
+
+/-- head-of-line witness (capacity 10): request 0 (size 9) is queued, producers 1 (size 5) and 2 (size 2) block; request 0
+finishes, its single `Signal` releases producer 1; everything is at rest with `size = 5` and producer 2 still asleep in the
+select although `5 + 2 ≤ 10`.  It is released by the next completion (`C02_blocked_implies_pending_completion`). -/
+theorem C02_release_on_space_full_fails : ¬ C02_release_on_space_full := by
+  intro h
+  have hev : (runSched k10 {} hol).map (fun s => ((s.ps 0).ph, (s.ps 1).ph, (s.ps 2).ph, (s.ps 2).sig, (s.ps 2).canc,
+      (s.ps 2).el, s.size, s.cwoken)) = some (.done .ok, .done .ok, .sel, false, false, 2, 5, []) := by rfl
+  cases hrun : runSched k10 {} hol with
+  | none => rw [hrun] at hev; cases hev
+  | some s =>
+    rw [hrun] at hev
+    simp only [Option.map_some, Option.some.injEq, Prod.mk.injEq] at hev
+    obtain ⟨e0, e1, e2, e3, e4, e5, e6, e7⟩ := hev
+    have hr : Reachable k10 s := ⟨hol, hrun⟩
+    have hq : Quiescent k10 s := by
+      refine quiescent_of ?_ e7
+      intro p
+      by_cases h0 : p = 0
+      · subst h0; exact Or.inr (Or.inl ⟨_, e0⟩)
+      by_cases h1 : p = 1
+      · subst h1; exact Or.inr (Or.inl ⟨_, e1⟩)
+      by_cases h2 : p = 2
+      · subst h2; exact Or.inr (Or.inr ⟨e2, e3, e4⟩)
+      left
+      refine idle_run hol {} s p hrun rfl ?_
+      intro l hl el he
+      subst he
+      simp [hol] at hl
+      omega
+    have := h k10 s (by decide) hr hq 2 (Or.inl e2)
+    rw [e5, e6] at this
+    revert this
+    decide
 
 /-! ## non-vacuity: concrete schedules -/
 
